@@ -163,7 +163,8 @@ func rulesC06(r *Run) {
 	ruleFailBranchStatus(r, "R4", smKey("BlockPreChecks"), smKey("runPreChecks"), "workflow.Block")
 	ruleJoinJ1(r, "R4", smKey("runPreChecks"), smKey("runBypasses")) // a gate that returns before joining its checks drops their verdict
 	ruleSkipRecoveredChecks(r, "R4")
-	r.Expect("R4", 11)
+	ruleContJoin(r, "R4", planMachine(r, "R4")) // a failing pre-check must end the scope Failed, not hang it in the drain of a channel nobody closes
+	r.Expect("R4", 20)
 }
 
 // ruleRunBypasses: runBypasses returns true only when Wait's error is nil, and the
@@ -392,7 +393,7 @@ func rulesC07(r *Run) {
 
 	r.Kind("R5", "K1")
 	ruleContJoin(r, "R5", m)
-	r.Expect("R5", 6)
+	r.Expect("R5", 9)
 }
 
 // cycleAvoiding: some cycle through st does not pass via.
